@@ -109,6 +109,7 @@ PROPS["C06"] = {
     "level": "proof",
     "verus": {},
     "assumptions": [
+        "group mktable also decides the enumeration: Column::has_storable_enum_values (the real loop) == 'no value contains the separator ';' and the list is not the lone empty string' -- what the one-cell, ';'-joined, empty-is-null representation in _Validation.Set can hold -- and create_table_with_name refuses every definition that fails it (found and fixed: D21, such definitions were accepted and reopened altered). That create_table joins with ';' and Package::open splits at ';' is read from the code (cfb-level, not covered): the clause states the representation, it does not prove the round trip",
         "group mktable: Package::create_table_with_name refuses, before touching the package, every definition with a column that is_storable() rejects (string width above 255) -- proved on the real checks of the function (its body up to the existence check; the rest is an unconstrained continuation, rule X14)",
         "that create_table_with_name writes Column::bitfield() into _Columns.Type and that Package::open passes that word to with_bitfield are call sites in cfb-level code, NOT covered",
         "the _Validation row construction / re-derivation (ranges, enumerations joined by ';', key annotations) is NOT covered",
@@ -186,7 +187,7 @@ PROPS["C08"]["verus"]["serial"] = SERIAL_FNS
 PROPS["C10"]["verus"]["readers"] = ["vx_read_whole", "SummaryInfo::read", "PropertySet::format_identifier", "PropertyValue::read", "PropertySet::read", "PropertyValue::minimum_version", "Timestamp::read_from",
                                     "lemma_pv_pair", "lemma_pv_pair_small", "lemma_pv_pair_i1", "lemma_pv_pair_i2", "lemma_pv_pair_str", "lemma_lpstr_layout", "lemma_pv_pair_time", "lemma_le32_rt", "lemma_le16_rt", "lemma_u64_halves", "lemma_i16_rt", "lemma_i32_rt", "lemma_i8_rt"]
 PROPS["C19"]["verus"]["queryfmt"] = ["Delete::fmt", "Insert::fmt", "Update::fmt", "Join::fmt", "Select::format_for_join", "Select::fmt"]
-PROPS["C06"]["verus"]["mktable"] = ["Package::create_table_with_name", "Column::is_storable"]
+PROPS["C06"]["verus"]["mktable"] = ["Package::create_table_with_name", "Column::is_storable", "Column::has_storable_enum_values"]
 PROPS["C07"]["verus"]["execgate"] = ["Insert::exec", "Update::exec", "Table::columns"]
 PROPS["C07"]["verus"]["category"] = ["Category::validate", "lemma_blen_nonneg", "lemma_blen_empty", "lemma_blen_ends", "lemma_last_of"]
 PROPS["C10"]["verus"]["propset"] = SUMMARY_FNS + ["lemma_in_step_set_codepage", "lemma_in_step_insert", "lemma_in_step_remove",
